@@ -88,6 +88,11 @@ CHECKS = {
             '(a) texts in the interpreter\'s format with 0-8 frames, per-frame optional source and position-marker lines, awkward paths (spaces, non-ASCII, <stdin>, a path containing \'", line 5, in b\'), function names like <module>/<lambda>/Class.method, type-only, one-line and multi-line messages containing ": ", quotes, \'File "\' and interior empty lines; from_string must recover every field, to_string must reproduce the text (marker lines removed, as documented), from_string(to_string()) is a fixed point, bytes input parses identically. (b) call chains of depth 1-12 mixing direct calls, lambdas, comprehensions, generator expressions, methods, multi-statement and multi-line calls, recursion, eval/exec frames, re-raise / finally / with blocks (so frame.f_lineno differs from tb_lineno), raising builtin, module-level, relabelled-module and function-local exception classes; TracebackInfo/ExceptionInfo frames must equal traceback.extract_tb, exc_msg == str(value), get_formatted() equals the interpreter\'s text without marker lines, to_dict is consistent, and ParsedException parses boltons\' own output back to the same frames. Known finding: >3 identical consecutive frames are collapsed by the interpreter only.',
             'Trusts the traceback module of the running interpreter (3.12); \\n-only line separation; SyntaxError, chaining, notes and groups excluded.',
             'DESIGN.md section 2, C16'),
+    'C12': ('exploration',
+            'scripted-socket harness: Hypothesis-generated byte streams, delivery scripts (chunk sizes, socket timeouts, virtual-clock jumps) and call sequences; oracles: reference semantics on the remaining stream, metamorphic all-at-once delivery, byte-conservation invariant after every call',
+            'BufferedSocket wraps a fake socket object whose recv/send follow a generated script; the module clock is replaced by a virtual clock the script advances, so timeout arithmetic is deterministic. Receive side: recv_until (multi-byte delimiters, maxsize, with_delimiter), recv_size, peek, recv, recv_close, each retried after Timeout, compared (1) with reference functions of the remaining stream, (2) with the same calls on the stream delivered in one piece, and (3) by the invariant returned + getrecvbuffer() + undelivered == stream after every call and every exception. Send side: send/sendall/buffer/flush under partial sends and timeouts with accepted + getsendbuffer() == handed-in at every step and complete delivery after the final flush. Netstring: payloads (incl. ":" "," digits, NUL, empty, oversize) through write_ns over a partial-send socket and back through read_ns under 1-byte chunking.',
+            'Trusts the reference functions (calibrated against the pinned code: no disagreement in 209k probe calls) and the fake socket; delimiters non-empty; n >= 1 for recv/recv_size reference comparison; no timeouts inside Netstring reads.',
+            'DESIGN.md section 2, C12'),
 }
 
 NOT_YET = 'check not built yet in this revision of /verif (work in progress; see DESIGN.md section 8)'
